@@ -114,7 +114,7 @@ func genScenario(r *Rng, maxMsgs, maxRcpts int) *SmtpScenario {
 			m.RenderFail = true
 			m.FailEarly = r.Bool()
 			if !m.FailEarly {
-				m.FailVia = []string{"", "seeker", "seeker-eof", "sign"}[r.Intn(4)]
+				m.FailVia = []string{"", "seeker", "seeker-eof", "sign", "fs-gone"}[r.Intn(5)]
 			}
 		}
 		m.ToViaAdd = len(m.To) > 1 && r.Chance(35)
